@@ -1,7 +1,7 @@
 """C14 - retry makes exactly the allowed attempts and reports the true last outcome.
 
 The wrapped function is a scripted test double: its k-th invocation produces the k-th outcome of a
-sequence over {S success, G exception group holding one exception of the caught class, C caught exception, Cs subclass of caught, U uncaught Exception,
+sequence over {S success, MC / MS haiway's own MissingContext / MissingState, G exception group holding one exception of the caught class, C caught exception, Cs subclass of caught, U uncaught Exception,
 X CancelledError, XC a CancelledError subclass that is also an instance of the caught class, B other BaseException}; every value / exception object is unique, so identity
 tells which attempt the caller finally saw. A 15-line reference loop predicts: number of
 invocations, the caller's outcome object, the pauses (virtual-clock gaps for async, recorded
@@ -78,7 +78,7 @@ CATCHING = {
     "default": lambda: None,  # retry(...) without catching: every Exception is caught
 }
 DELAYS = ("none", "int", "float", "func", "zero")
-TERMINAL = ("S", "U", "X", "B", "XC", "G")
+TERMINAL = ("S", "U", "X", "B", "XC", "G", "MC", "MS")
 
 
 def sequences(limit: int):  # noqa: ANN201
@@ -89,6 +89,8 @@ def sequences(limit: int):  # noqa: ANN201
     for pre in itertools.product(("C", "Cs"), repeat=limit + 1):
         yield pre
     yield ("G",) * (limit + 1)
+    yield ("MC",) * (limit + 1)
+    yield ("MS", "C") * limit
     yield ("C", "G") * limit
 
 
@@ -99,6 +101,11 @@ def make_outcome(kind: str, i: int) -> tuple[str, Any]:
         # what a function built on a task group raises when one of its tasks failed: an exception group with a single member of the caught
         # class. The group is the exception; it is an instance of ExceptionGroup / Exception, not of its member's class
         return "raise", ExceptionGroup(f"attempt-{i}", [CaughtErr(f"attempt-{i}-member")])
+    if kind in ("MC", "MS"):
+        # the library's own exception types (a state lookup outside every scope / of a type nobody supplied): ordinary Exceptions for retry
+        import haiway
+
+        return "raise", (haiway.MissingContext if kind == "MC" else haiway.MissingState)(f"attempt-{i}")
     cls = {"C": CaughtErr, "Cs": CaughtSub, "U": Uncaught, "X": asyncio.CancelledError, "B": Fatal, "XC": CancelledCaught}[kind]
     return "raise", cls(f"attempt-{i}")
 
@@ -324,6 +331,7 @@ def argname_wrappers() -> dict[str, tuple[Any, bool, bool]]:
 def run(R: Recorder, tier: str, seed: int, shard: int, nshards: int) -> None:
     if shard == 0:
         argnames.check(R, "arguments", argname_wrappers())
+        argnames.check_injecting(R, "arguments", argname_wrappers())
         stacking.check_retry(R, "attempts")
     R.flags["exhaustive"] = True
     R.flags["exhaustive_core"] = "full product of pruned outcome sequences x limits 1-4 x catching forms x delay forms x sync/async x scoped"
@@ -337,6 +345,9 @@ def run(R: Recorder, tier: str, seed: int, shard: int, nshards: int) -> None:
 
 
 def replay(R: Recorder, case: dict[str, Any]) -> None:
+    if "injecting" in case:
+        argnames.check_injecting(R, "arguments", argname_wrappers())
+        return
     if "argnames" in case:
         argnames.check(R, "arguments", argname_wrappers(), only=case["argnames"])
         return
